@@ -46,17 +46,43 @@ def spelled(km, unit):
     return ("%.10g %s" % (float(Fraction(km) / UNIT_KM[unit]), unit)).strip()
 
 
+def split_radius(r):
+    """'<number><optional blank><unit>' -> (Fraction, unit name). The number
+    may be written in any form float() accepts ('+3.5', '.35e1', '35E-1')."""
+    text = r.strip()
+    for unit in sorted(UNIT_KM, key=len, reverse=True):
+        if unit and text.endswith(unit):
+            number = text[:-len(unit)].strip()
+            try:
+                return Fraction(number), unit
+            except ValueError:
+                continue
+    return Fraction(text), ""
+
+
 def unit_of(r):
     """The unit (first name of its group) of a radius written as a string."""
-    return UNIT_GROUP[r.partition(" ")[2]]
+    return UNIT_GROUP[split_radius(r)[1]]
 
 
 def radius_km(r):
     """The radius meant by `r` (a number of km or '<number> <unit>')."""
     if isinstance(r, str):
-        number, _, unit = r.partition(" ")
-        return LD(float(Fraction(number) * UNIT_KM[unit]))
+        number, unit = split_radius(r)
+        return LD(float(number * UNIT_KM[unit]))
     return LD(r)
+
+
+def number_forms(text):
+    """Other spellings of the decimal number `text` that Python's float()
+    reads as the same value: sign, exponent, bare leading decimal point."""
+    from decimal import Decimal
+    d = Decimal(text)
+    k = d.adjusted() + 1
+    shifted = format(d.scaleb(-k), "f")          # 0.xxxx
+    assert shifted.startswith("0.")
+    return ["+" + text, text + "e0", text + "E+0",
+            shifted[1:] + "e%d" % k]
 
 
 def unit_vectors(lat, lon):
